@@ -324,3 +324,23 @@ MANIFEST_TEXT["C13"] = {
     "text": "Bounded model checking of the parts of proof-of-work handling that the solvers decide: the 256-bit Work arithmetic used by retargeting (full width, against an independent reference), header validation as an equivalence with the four header rules (median of the previous timestamps checked against its definition), and asymmetry of the reorg threshold. The retargeting clamp/totality obligations are NOT claimed (solver does not terminate); see evidence.outside_bounds.",
     "note": "Partial claim. Trusted: z3, engine, ideal hash for the block ID.",
 }
+
+PROPS["C16"] = {
+    "runs": [
+        {"pkg": "rhp/v4", "harness": ["harness/c16/c16.go"], "run": "^VH_C16_", "params": {"quick": {"maxn": 8, "maxappend": 3}, "thorough": {"maxn": 16, "maxappend": 5}},
+         "flags": {"quick": ["-maxloop", "1000000", "-timeout", "5000"], "thorough": ["-maxloop", "100000000", "-timeout", "20000", "-maxpaths", "2000000"]},
+         "must_reach": {"VH_C16_RootsAndCompleteness": ["end"], "VH_C16_RangeProofSound": ["end"], "VH_C16_AppendFreeSound": ["append-accepted", "free-accepted"]},
+         "tv_harnesses": ["VH_C16_RootsAndCompleteness"]},
+    ],
+    "tv_runs": {"quick": 2, "thorough": 4},
+    "bounds": {"quick": "n = 1..8 sector roots (symbolic), every (start,end) range, append batches of 1..3, every freed single/pair; soundness with symbolic proof hashes and symbolic claimed roots at the correct length and at length +-1",
+               "thorough": "n = 1..16, append 1..5"},
+    "outside": ["whole-sector functions (SectorRoot, ReaderRoot, ReadSector, BuildProof, BuildSectorProof, CachedSectorSubtrees, RangeProofVerifier.ReadFrom): 65 536-leaf hashing loops and goroutines are not encodable", "the AVX2 assembly and equality of CPU paths (assembly is not in SSA)",
+                "observation (not claimed as a violation of the property as stated): VerifyDiffProof does not check the accumulated leaf count, so a proof that is shorter AND whose covered 'leaf' values are replaced by internal node hashes AND whose new root is recomputed accordingly is accepted; single-point corruptions are rejected"],
+    "stubs": ["blake2b.SumPair / hashBlocks: ideal hash of the 65-byte block (generic code path)", "sector roots are ideal-hash outputs of unknown sector data (never equal to a node hash)"],
+    "assumptions": COMMON_ASSUME + IDEAL_CRYPTO + ["acyclic ideal hash (a digest never equals a 32-byte piece of its own pre-image)"],
+}
+MANIFEST_TEXT["C16"] = {
+    "text": "Bounded model checking under the ideal-hash model: MetaRoot and blake2b.Accumulator against a plainly written RFC-6962 tree; every builder output accepted by its verifier with the right old/new roots (term identities for all hash values at once); soundness of range, append and free proofs decided by the solver over symbolic proof hashes and claimed data, including wrong proof lengths.",
+    "note": "Partial claim: sector-level hashing, streaming readers and SIMD paths are outside (not encodable). Bounds n <= 8 (16).",
+}
